@@ -170,6 +170,19 @@ class ThresholdPairCorr(Corr):
                      matching_threshold_list=thresholds, **({"is_detection_2d": True} if two_d else {}))
             o["map"], o["maph"] = A.inf_to_none(mp.map), A.inf_to_none(mp.maph)
             o["label_aps"] = [A.inf_to_none(a.ap) for a in mp.aps]
+            if not two_d and len(tl) >= 1:
+                # the public entry point one level up: the same per-label thresholds handed to the metrics configuration (one value per
+                # target label) must reach the metrics as given -- loosening a configuration loosens exactly these numbers
+                from perception_eval.common.evaluation_task import EvaluationTask
+                from perception_eval.evaluation.metrics.metrics_score_config import MetricsScoreConfig
+
+                key = {"CENTERDISTANCE": "center_distance_thresholds", "PLANEDISTANCE": "plane_distance_thresholds",
+                       "IOU2D": "iou_2d_thresholds", "IOU3D": "iou_3d_thresholds"}[case["mode"]]
+                try:
+                    mc = MetricsScoreConfig(EvaluationTask.DETECTION, target_labels=list(tl), **{key: list(thresholds)})
+                    o["config_thresholds"] = [[float(x) for x in row] for row in getattr(mc.detection_config, key)]
+                except Exception as e:  # noqa: BLE001
+                    o["config_thresholds"] = f"{type(e).__name__}: {e}"
         tp, fp = get_positive_objects(list(results), tl, mm, thresholds)
         gts = [r.ground_truth_object for r in results if r.ground_truth_object is not None] + list(extra)
         tn, fn = get_negative_objects(gts, list(results), tl, mm, thresholds)
@@ -227,6 +240,11 @@ class ThresholdPairCorr(Corr):
             return (f"judging {'2D' if case['scene'].get('dim') == '2d' else '3D'} results under {case['mode']} with the valid thresholds "
                     f"{case['t_strict']} / {case['t_loose']} raises {obs['error']}")
         s, l = obs["strict"], obs["loose"]
+        for side, o, thr in (("strict", s, case["t_strict"]), ("loose", l, case["t_loose"])):
+            ct = o.get("config_thresholds")
+            if ct is not None and len(thr) >= 2 and ct != [[float(x) for x in thr]]:
+                return (f"the metrics configuration given the per-label thresholds {thr} ({case['mode']}) hands the metrics {ct}: "
+                        f"the {side} thresholds are not the ones configured")
         fs = s["ap"]["facts"]
         # the property speaks about ordinary (non false-positive-labelled) ground truth
         has_fp_gt = any(f["gt_fp"] for f in fs)
